@@ -12,7 +12,7 @@ struct TmrRun {
     std::vector<MAct> acts;             // every action ever created (index = handle)
     std::vector<int> liveById;          // id -> handle or -1
     uint32_t maxN = 0; int opi = 0; std::vector<uint32_t> ppPerOp;
-    bool inProcess = false; int running = -1;   // handle of action whose callback runs
+    bool inProcess = false; int running = -1; int limbo = 0;   // limbo: actions cancelled while detached; their slots return when the running COTmrProcess reaches them   // handle of action whose callback runs
     Hash trace; bool nontrivial = false;
 
     TmrRun(const Plan &p, Cov &c, bool pre, bool vb) : plan(p), cov(c), preemptive(pre), verbose(vb) {}
@@ -51,10 +51,10 @@ struct TmrRun {
         int16_t id = COTmrCreate(T(), start, cycle, cb, (void *)(uintptr_t)(h + 1));
         bool mustFail = (start == 0 && cycle == 0);
         int runningOneShot = (running >= 0 && acts[(size_t)running].period == 0) ? 1 : 0; (void)runningOneShot;
-        bool full = before >= (int)maxN;
+        bool full = before >= (int)maxN; bool maybeFull = before + limbo >= (int)maxN;
         if (mustFail) { if (id >= 0) fail("create/zero-times-accepted", "create(0,0) returned an id"); acts.pop_back(); return -1; }
         if (id < 0) {
-            if (!full) { char b[128]; snprintf(b, sizeof b, "create(%u,%u) failed with %d of %u slots in use", start, cycle, before, maxN); fail("create/failed-with-free-slot", b); }
+            if (!maybeFull) { char b[128]; snprintf(b, sizeof b, "create(%u,%u) failed with %d of %u slots in use", start, cycle, before, maxN); fail("create/failed-with-free-slot", b); }
             else cov.hit("pool-full-create");
             acts.pop_back(); return -1;
         }
@@ -72,7 +72,8 @@ struct TmrRun {
         int h = (id >= 0 && id < (int)maxN) ? liveById[(size_t)id] : -1;
         bool live = h >= 0 && acts[(size_t)h].st != A_FREED;
         // detached = elapsed, shares the expiry currently being processed, not yet run
-        bool maybeDetached = live && inProcess && acts[(size_t)h].st == A_ELAPSED;
+        bool maybeDetached = false;   // an action already detached by a running COTmrProcess is 'elapsed, not yet processed': the delete must cancel it
+        if (live && inProcess && acts[(size_t)h].st == A_ELAPSED) cov.hit("delete-detached");
         if (live) { // reach: removal position class
             std::vector<uint64_t> d; for (auto &a : acts) if (a.st == A_PENDING) d.push_back(a.due); std::sort(d.begin(), d.end()); size_t same = 0; for (auto &a : acts) if (a.st != A_FREED && a.due == acts[(size_t)h].due) same++;
             MAct &a = acts[(size_t)h];
@@ -83,7 +84,7 @@ struct TmrRun {
         int16_t r = COTmrDelete(T(), (int16_t)id);
         if (!live) { if (r == 0) { char b[96]; snprintf(b, sizeof b, "delete(%d) of a non-live id returned 0", id); fail("delete/stale-confirmed", b); } return; }
         MAct &a = acts[(size_t)h];
-        if (r == 0) { a.st = A_FREED; a.cancelMaybe = false; }
+        if (r == 0) { if (inProcess && a.st == A_ELAPSED) limbo++; a.st = A_FREED; a.cancelMaybe = false; }
         else if (maybeDetached) { a.cancelMaybe = true; cov.hit("delete-detached-refused"); }
         else { char b[128]; snprintf(b, sizeof b, "delete(%d) of a live %s action returned %d", id, a.st == A_ELAPSED ? "elapsed" : "pending", r); fail(a.st == A_ELAPSED ? "delete/elapsed-refused" : "delete/live-refused", b); }
     }
@@ -115,7 +116,7 @@ struct TmrRun {
         if (mustRun.size() > 1) cov.hit("process-multi");
         inProcess = true;
         COTmrProcess(T());
-        inProcess = false;
+        inProcess = false; limbo = 0;
         for (size_t i = 0; i < mustRun.size(); i++) {
             MAct &a = acts[mustRun[i]];
             bool ran = a.runs > runsBefore[i];
